@@ -95,7 +95,7 @@ func main() {
 	}
 	var jobs []job
 	if run.Quick() {
-		for _, c := range pickQuick(run.Rand("select"), all, 132) {
+		for _, c := range pickQuick(run.Rand("select"), all, 154) {
 			jobs = append(jobs, job{c, 0})
 			if staleShape(c) {
 				// the outcome of this shape depends on the order in which the tool visits the target's
@@ -184,6 +184,9 @@ func pickQuick(r *rand.Rand, all []combo, n int) []combo {
 		if c.TFault == "reset" && c.Src == "failover-early" {
 			add(c) // 4: both backends, restart and in-loop
 		}
+		if c.Refuse && (c.Src == "same" || (c.Src == "failover-late" && c.Backend == "disk")) {
+			add(c)
+		}
 		if c.TFault == "startup" && c.Src == "failover-early" {
 			add(c)
 		}
@@ -234,7 +237,7 @@ func pickQuick(r *rand.Rand, all []combo, n int) []combo {
 // staleShape: a failover to a node that may be behind the stored position, decided by a cache
 // under the first id (full resynchronisation at an offset below the old position).
 func staleShape(c combo) bool {
-	return c.Src == "failover-early" && c.Cache == "natural" && c.Pid == "id1" && c.Prel == "at-right" && c.TFault == ""
+	return c.Src == "failover-early" && c.Cache == "natural" && c.Pid == "id1" && c.Prel == "at-right" && c.TFault == "" && !c.Refuse
 }
 
 func dims(c combo) []string {
@@ -352,6 +355,9 @@ func oneCase(run *harness.Run, key string, c combo, tmp string, n int) {
 		if p.DropAfter > 0 {
 			src1.Source().DropReplicaAfter(p.DropAfter)
 		}
+		if p.RefuseN > 0 {
+			src1.Source().RefusePsyncs(p.RefuseN, p.RefuseLine)
+		}
 		s2 = cr.phase(t1, src1, p.H2, p.LiveFrom, end2, "b", r.Intn(3), n0, reqFrom, psFrom)
 		t2 = t1
 	} else {
@@ -461,6 +467,9 @@ func oneCase(run *harness.Run, key string, c combo, tmp string, n int) {
 		if p.DropAfter > 0 {
 			src2.Source().DropReplicaAfter(p.DropAfter)
 		}
+		if p.RefuseN > 0 {
+			src2.Source().RefusePsyncs(p.RefuseN, p.RefuseLine)
+		}
 		n0 = len(cr.tgt.Applied()) // the start-up bookkeeping belongs to the judged log
 		t2, err = cr.startTool(src2.Addr(), cache.ch)
 		if err != nil {
@@ -516,6 +525,7 @@ func oneCase(run *harness.Run, key string, c combo, tmp string, n int) {
 		}
 	}
 	run.Count("psync_requests_seen", int64(len(s2.Psync)+len(s1.Psync)))
+	run.Count("psync_answers_refused", int64(len(s2.Refused)))
 	run.Count("psync_answers_continue", int64(nCont))
 	run.Count("psync_answers_fullresync", int64(nFull))
 	run.Count("stream_writes_compared", int64(v.Compared))
@@ -541,7 +551,7 @@ func oneCase(run *harness.Run, key string, c combo, tmp string, n int) {
 				p.H2.ReplID, p.SrcID2, p.S, p.S+1, p.H2.Base, p.H2.End(), p.LiveFrom, p.BacklogOff),
 			"stored_position_before": fmt.Sprintf("absent=%v id=%s offset=%d class=%s", pre.PosAbsent, pre.PosID, pre.Pos, posC),
 			"cache_before":           fmt.Sprintf("id=%s log=[%d,%d] snapshot@%d class=%s", pre.CacheID, pre.CacheL, pre.CacheR, pre.CacheRo, cacheC),
-			"psync_dialogue":         psyncStrings(s2.Psync), "session_end": s2.Ended, "run_error": s2.RunErr, "outcome": v.Outcome,
+			"psync_dialogue":         psyncStrings(s2.Psync), "psync_refused": psyncStrings(s2.Refused), "session_end": s2.Ended, "run_error": s2.RunErr, "outcome": v.Outcome,
 			"target_log_head": headApps(s2.Apps, 14),
 		}
 		if !pre.PosAbsent {
@@ -598,7 +608,7 @@ func oneCase(run *harness.Run, key string, c combo, tmp string, n int) {
 		run.Inconclusive("%s: the tool did not stop", key)
 	}
 	if len(s2.Psync) > 0 || s2.Ended == "refused" {
-		run.Distinct(fmt.Sprintf("%s|%s|%s|%s|%s|drop=%v|tfault=%s|idle=%v|base=%s|loopcut=%v|%s", c.Src, posC, cacheC, c.Backend, c.Restart, c.Drop, c.TFault, c.Idle, c.Base, c.LoopCut, v.Outcome))
+		run.Distinct(fmt.Sprintf("%s|%s|%s|%s|%s|drop=%v|tfault=%s|idle=%v|base=%s|loopcut=%v|refuse=%v|%s", c.Src, posC, cacheC, c.Backend, c.Restart, c.Drop, c.TFault, c.Idle, c.Base, c.LoopCut, c.Refuse, v.Outcome))
 	}
 	if len(v.Findings) == 0 && (s2.Ended == "sentinel" || s2.Ended == "idle-acked") {
 		run.Sample(map[string]any{"case": key, "constructed": p.Constructed, "position": posC, "cache": cacheC, "psync": psyncStrings(s2.Psync),
